@@ -176,6 +176,13 @@ func mulMode(args []string) int {
 			if r.Intn(2) == 0 {
 				nb = na
 			}
+			if i%50 == 9 {
+				// the lengths the consistency check uses (256-label check
+				// batch, 1024-label blocks) and their neighbours
+				na = []int{255, 256, 257, 258, 259, 260, 511, 1023, 1024, 1025}[r.Intn(10)]
+				nb = na + r.Intn(3)
+				o.Count("inner_cases_long")
+			}
 			as := make([]ot.Label, na)
 			bs := make([]ot.Label, nb)
 			for j := range as {
